@@ -325,4 +325,11 @@ func (d *DB) Query(sql string, o QueryOpts) (*Result, error) {
 func (d *DB) Flush() { d.Z.FlushAll() }
 
 // IsInconclusive reports whether err stems from a bounded wait.
-func IsInconclusive(err error) bool { return errors.Is(err, ErrInconclusive) }
+func IsInconclusive(err error) bool {
+	if err == nil {
+		return false
+	}
+	// also when a caller wrapped it with %v and the chain was lost: a bounded
+	// wait that expired must never be turned into a verdict by formatting
+	return errors.Is(err, ErrInconclusive) || strings.Contains(err.Error(), "inconclusive: ")
+}
